@@ -26,7 +26,7 @@ pub const PROPS: &[PropSpec] = &[
         rule: "non-trivial: a dispatch call overlapped stop() in time, or the queue held a backlog >= 1 when stop() was invoked" },
     PropSpec { id: "C05", families: &[("bp", 7), ("stop", 3)], borrowed: &[], quick_runs: 64_000,
         rule: "non-trivial: a dispatch blocked on the full dispatch queue (seam event Block on ChanSend of the store's queue) under BlockOnFull" },
-    PropSpec { id: "C06", families: &[("bp", 10)], borrowed: &[], quick_runs: 64_000,
+    PropSpec { id: "C06", families: &[("bp", 8), ("mw", 2)], borrowed: &[], quick_runs: 64_000,
         rule: "non-trivial: a drop policy actually discarded an action (metric or Err result) in the run" },
     PropSpec { id: "C07", families: &[("core", 4), ("mw", 4), ("sub", 2)], borrowed: &[("C03", "sub"), ("C03", "core"), ("C03", "mw")], quick_runs: 96_000,
         rule: "non-trivial: >=2 kinds of reducer-context callbacks ran for >=2 actions while another client thread was runnable" },
